@@ -48,7 +48,7 @@ def run_text_wf(chk, n):
     impl = vlib.run_impl("gcov_text", cases, chk.pid, parallel=4)
     model = vlib.run_model(chk.pid, "Run.ShowGcov", exprs)
     dist = {"reports": len(reports), "sections": 0, "records": 0, "sections_without_lines": 0, "sections_with_lines_without_functions": 0, "negative_counts": 0, "crlf_lines": 0,
-            "unknown_keys": 0, "max_count": 0, "branch_records": 0, "function_records": 0, "dup_lcount_sections": 0,
+            "unknown_keys": 0, "negative_function_counts": 0, "max_count": 0, "branch_records": 0, "function_records": 0, "dup_lcount_sections": 0,
             "names_with_comma": 0, "non_ascii_names": 0}
     dis = []
     for (rep, files), case, ri, rm in zip(reports, cases, impl, model):
@@ -99,6 +99,7 @@ def run_text_wf(chk, n):
             dist["unknown_keys"] += sum(1 for r in recs if r[0] == "other")
             dist["branch_records"] += sum(1 for r in recs if r[0] == "branch")
             dist["function_records"] += sum(1 for r in recs if r[0] == "function")
+            dist["negative_function_counts"] += sum(1 for r in recs if r[0] == "function" and r[2].startswith(b"-"))
             dist["names_with_comma"] += sum(1 for r in recs if r[0] == "function" and b"," in r[3])
             dist["non_ascii_names"] += sum(1 for r in recs if r[0] == "function" and max(r[3], default=0) > 127) + (max(s["name"], default=0) > 127)
             for r in lc:
@@ -592,6 +593,15 @@ def confirm_witnesses(chk):
 
     corpus("fixed 31d3a3d: lcount without file", "gcov_text", {"hex": TEXT_PANIC_WITNESS.hex()}, "err",
            "a malformed text report must give a result or an error, never a panic")
+    # a function whose call count is printed negative (counter above 2^63 in old gcov) was called: negative-is-zero holds for lines only
+    case = {"hex": b"file:a.c\nfunction:1,-5,f\nfunction:2,0,g\nfunction:3,-9223372036854775808,h\nlcount:1,-5\nlcount:2,1\n".hex()}
+    a = G.results_from_impl(vlib.run_impl("gcov_text", [case], chk.pid)[0])
+    chk.count()
+    want = [[b"a.c".hex(), G.canon({1: 0, 2: 1}, {}, {b"f": (1, True), b"g": (2, False), b"h": (3, True)})]]
+    out["negative call count is non-zero"] = "ok" if a[0] == "ok" and vlib.canon(a[1]) == vlib.canon(want) else str(a)[:200]
+    if a[0] != "ok" or vlib.canon(a[1]) != vlib.canon(want):
+        chk.violation({"kind": "oracle", "engine": "gcov_text", "case": case, "text": bytes.fromhex(case["hex"]).decode(), "impl": a, "expected": want,
+                       "clause": "a function is executed iff its call count is non-zero (a negative call count is non-zero; only line counts read negative as 0)"}, tag="corpus")
     for tok in TWO64_TOKENS:
         tree = [{"file": b"a.c", "functions": [], "lines": [{"line_number": "1", "count": tok, "branches": []}]}]
         corpus("fixed 79d6ea6: count " + tok, "gcov_json", {"json": G.render_json(rng, tree)}, "err",
